@@ -100,6 +100,7 @@ def run(ctx):
 
     r1 = ctx.rule("C02.R1", c08.R1_TEXT, "DEP with listed idioms")
     c08.close_flag_window_rule(ctx, r1)
+    c08.source_symbol_rule(ctx, r1)   # the source-byte counter that feeds the flag counts source symbols only (esi < k)
 
     # ---- R2 -----------------------------------------------------------------------------
     r2 = ctx.rule("C02.R2", "in ObjectReceiver::push_to_block the symbol is pushed (push_to_block2) before the close-object flag "
